@@ -415,6 +415,17 @@ func init() {
 		st.now = tt.Bin(OpAdd, st.clockNow(), d)
 		return nil
 	})
+	vrtPrims["vrtFreezeTimers"] = simple(func(st *State, args []Value) Value {
+		st.timersFrozen = true
+		return nil
+	})
+	vrtPrims["vrtTimerFires"] = simple(func(st *State, args []Value) Value {
+		n := 0
+		for _, t := range st.timers {
+			n += t.fired
+		}
+		return st.tt.Const(uint64(n), 64)
+	})
 	vrtPrims["vrtIsSym"] = simple(func(st *State, args []Value) Value { return st.tt.True })
 }
 
